@@ -751,8 +751,8 @@ def handlers_of(prog, once):
     return hs
 
 
-def r_once(prog, R, E):
-    r = R.rule("R-C01-ONCE", "every request layer disposes its request exactly once on every path; status/flag protocols between layers are truthful", floor=25,
+def r_once(prog, R, E, rid="R-C01-ONCE"):
+    r = R.rule(rid, "every request layer disposes its request exactly once on every path; status/flag protocols between layers are truthful", floor=25,
                analysis="A-TS outcome summaries (disjunctive value sets)")
     once = Once(prog, E)
     hs = handlers_of(prog, once)
